@@ -223,6 +223,7 @@ type simLock struct {
 	held     map[uint64]*lockReq // goid -> request currently held by that goroutine
 	seq      int
 	holdRole string
+	holdConn string // requests of the connection with this name prefix are held back too
 }
 
 func (l *simLock) acquire(mode lockMode) {
@@ -316,6 +317,9 @@ func (l *simLock) actionsLocked() []action {
 		}
 		if l.holdRole != "" && r.role == l.holdRole {
 			continue // a property holds these requests back for a while (e.g. to pile up scripts)
+		}
+		if l.holdConn != "" && r.conn != nil && strings.HasPrefix(r.conn.name, l.holdConn) {
+			continue
 		}
 		acts = append(acts, action{kind: akGrant, key: r.key(), run: func() { l.grant(r) }})
 	}
